@@ -95,7 +95,7 @@ class NamedTupleType:
 # ---------------------------------------------------------------------------
 
 
-@dataclass
+@dataclass(eq=False)
 class ModuleInfo:
     name: str
     path: str
@@ -112,7 +112,7 @@ class ModuleInfo:
         return os.path.relpath(self.path, REPO_ROOT)
 
 
-@dataclass
+@dataclass(eq=False)
 class ClassInfo:
     name: str
     module: ModuleInfo
